@@ -275,7 +275,7 @@ pub fn line_of(rng: &mut Rng, frame: &[u8], deco: bool) -> Vec<u8> {
 
 pub const JUNK_KINDS: &[&str] = &[
     "empty", "blank", "text", "hex13", "hex15", "hex27", "hex29", "hex41", "hex-odd", "high-bytes", "nul",
-    "lone-cr", "overlong", "utf8-multibyte", "truncated-frame", "semicolon-only", "split-utf8", "pow2-len", "pow2-len", "ctrl-bytes", "ctrl-z", "bom", "overlong-frame-tail", "utf16-bom", "greeting",
+    "lone-cr", "overlong", "utf8-multibyte", "truncated-frame", "semicolon-only", "split-utf8", "pow2-len", "pow2-len", "ctrl-bytes", "ctrl-z", "bom", "overlong-frame-tail", "utf16-bom", "greeting", "at-cut",
 ];
 
 /// A line (with newline) that is unambiguously *not* a frame: its hex-digit
@@ -304,6 +304,8 @@ pub fn junk(rng: &mut Rng, kind: &str) -> Vec<u8> {
         "ctrl-bytes" => { let n = rng.range(1, 30); (0..n).map(|_| { let c = rng.range(1, 31) as u8; if c == b'\n' { 0x0B } else { c } }).collect() }
         "ctrl-z" => match rng.below(3) { 0 => vec![0x1A], 1 => { let mut x = vec![0x1A]; x.extend(b"qq zz"); x } _ => { let mut x = b"zz".to_vec(); x.push(0x1A); x.extend(b"qq"); x } },
         "utf16-bom" => { let mut x = if rng.chance(0.5) { vec![0xFF, 0xFE] } else { vec![0xFE, 0xFF] }; for _ in 0..rng.range(0, 12) { x.push(*rng.pick(&[0u8, b'*', b'8', b'D', 0x00, b';'])); } x }
+        // a time-stamped '@' line cut short: even digit counts that are not frame lengths
+        "at-cut" => { let n = *rng.pick(&[16usize, 18, 20, 22, 24, 30, 32, 34, 36, 38, 42, 44]); let mut v = vec![b'@']; v.extend(hexn(rng, n)); v.push(b';'); v }
         // what other services say first when one connects to the wrong port
         "greeting" => rng.pick(&[&b"HTTP/1.1 400 Bad Request"[..], b"SSH-2.0-OpenSSH_9.6", b"220 mx.example.net ESMTP ready", b"* OK IMAP4rev1 ready", b"+OK POP3 ready", b"\xff\xfd\x18\xff\xfd\x20", b"RFB 003.008", b"-ERR unknown", b"{\"jsonrpc\":\"2.0\"}"]).to_vec(),
         "bom" => vec![0xEF, 0xBB, 0xBF, b'*', b';'],
@@ -418,6 +420,21 @@ pub fn ops_of(rng: &mut Rng, lines: Vec<(i64, Vec<u8>, String)>, ch: Chunking) -
         }
     }
     ops
+}
+
+/// DF20/21 (or DF16) reply whose BDS 3,0 ACAS resolution advisory names `intruder` as the threat
+/// (TTI = 01, TID = Mode S address): a frame of one aircraft that mentions another.
+pub fn acas_ra_frame(rng: &mut Rng, ac: &Ac, intruder: u32) -> Vec<u8> {
+    // MB: BDS 0x30, ARA(14) RAC(4) RAT(1) MTE(1) TTI(2) TID(26)
+    let mut mb: u64 = 0x30 << 48;
+    mb |= (rng.bits(20) & 0xFFFFF) << 28; // ARA RAC RAT MTE
+    mb |= 0b01 << 26;
+    mb |= (intruder as u64 & 0xFFFFFF) << 2;
+    match rng.below(3) {
+        0 => df20_21(20, ac.icao, rng.below(8), rng.below(32), rng.below(64), ac13_q1(ac.alt_n), mb),
+        1 => df20_21(21, ac.icao, rng.below(8), rng.below(32), rng.below(64), id13(ac.sq[0], ac.sq[1], ac.sq[2], ac.sq[3]), mb),
+        _ => df16(ac.icao, rng.below(2), rng.below(8), rng.below(16), ac13_q1(ac.alt_n), mb),
+    }
 }
 
 /// Ordinary well-formed traffic: `n` frames from the given aircraft with gaps
